@@ -907,7 +907,7 @@ class FiniteDifferenceImplicitThermalProblem:
                 elif isinstance(self.tube.inner_bc, receiver.ConvectiveBC):
                     fluid_T = self.tube.inner_bc.fluid_temperature(
                         time, self.z[1, j, k]
-                    )[0]
+                    )
                     R[self.dof(i, j, k)] = (
                         self.dr
                         * self.fluid.coefficient(self.material.name, fluid_T)
@@ -949,7 +949,7 @@ class FiniteDifferenceImplicitThermalProblem:
                     J.append(self.dof(1, j, k))
                     fluid_T = self.tube.inner_bc.fluid_temperature(
                         time, self.z[1, j, k]
-                    )[0]
+                    )
                     D.append(
                         self.dr
                         * self.fluid.coefficient(self.material.name, fluid_T)
@@ -1012,7 +1012,7 @@ class FiniteDifferenceImplicitThermalProblem:
                 elif isinstance(self.tube.outer_bc, receiver.ConvectiveBC):
                     fluid_T = self.tube.outer_bc.fluid_temperature(
                         time, self.z[self.nr - 2, j, k]
-                    )[0]
+                    )
                     R[self.dof(i, j, k)] = (
                         self.dr
                         * self.fluid.coefficient(self.material.name, fluid_T)
@@ -1043,7 +1043,7 @@ class FiniteDifferenceImplicitThermalProblem:
                     J.append(self.dof(self.nr - 2, j, k))
                     fluid_T = self.tube.outer_bc.fluid_temperature(
                         time, self.z[self.nr - 2, j, k]
-                    )[0]
+                    )
                     D.append(
                         self.dr
                         * self.fluid.coefficient(self.material.name, fluid_T)
